@@ -13,6 +13,7 @@ DECIDED = ("R1 in alphabeta the mate score is built only under `no legal move` a
            "R4 the three root move loops end only by exhausting the generator or under timeout.is_complete(), and every root move is searched by alphabeta of the opposite policy; "
            "R5 the root keeps a move only if is_better(score, new) (strict, C14 order), so a later equal-or-worse move never displaces a mate.")
 DECIDED = DECIDED + ' R6 premise re-run here: the staged iteration the search relies on (captures first, then set_mask and the rest) loses no move (C10.R3, R7, R9). R7 the score search_with reports originates only from alphabeta results or P::WORST_SCORE (reaching definitions, field-sensitive): a shortcut returning a static evaluation would report Raw(..) for a mating move.'
+DECIDED = DECIDED + ' R8 in search_with (three root loops) and in alphabeta the running best score is replaced by a child score exactly under P::is_better(best, child) - as an assignment, or inside a private helper evaluated on its own paths - and is written nowhere else (a fold that never stores the better score makes every inner node return the policy worst score and lets any later root move displace the mate).'
 NOT_DECIDED = "that the move carrying the mate score checkmates on the actual board (needs C01 move generation and C03 check status as behaviours)"
 EXPLANATION = ("K2 guard extraction (control dependence chains described by the defining call of each branch value) over the MIR of the generic search functions; "
                "K4 table for the dead-position predicate; who-may-construct over the whole workspace.")
@@ -313,6 +314,52 @@ def r4(ctx):
                    sample={"exit": why})
 
 
+def _unref(d):
+    """the place behind `&mut x` / `&mut *(&mut x)` in a k2 description"""
+    while True:
+        if d[0] == "ref":
+            d = d[1]
+        elif d[0] == "proj" and all(e == "d" for e in d[2]):
+            d = d[1]
+        else:
+            return d
+
+
+def _is_better_helper(P, callee, writes=False):
+    """callee (as printed at the call site) is a non-pub chess_engine function (&mut Score, Score) -> bool whose every path that returns true has
+    P::is_better(*a0, a1) == true."""
+    key = T.strip_generics(callee)
+    f = P.fns.get(key)
+    if not f or f.get("vis") == "pub" or not key.startswith("chess_engine::"):
+        return False
+    body = P.body(key)
+    if body["argc"] != 2 or body["locals"][0]["ty"] != "bool":
+        return False
+    try:
+        lv = T.Engine(P).tabulate(key)
+    except T.NotTabulable:
+        return False
+    def is_ib(t):
+        return (t[0] == "app" and t[1].endswith("Policy>::is_better") and len(t[2]) == 2
+                and t[2][0] in (("obj", ("param", 0, "a0")), ("deref", ("param", 0, "a0"))) and t[2][1] == ("param", 1, "a1"))
+    for l in lv:
+        r = l.ret
+        under = any(is_ib(c) and v == 1 for c, v in l.cond)
+        if writes:
+            # ... and on those paths (only) the running best is replaced by the candidate
+            w = l.ext.get(("param", 0, "a0"))
+            if (w == ("param", 1, "a1")) != under or (w is not None and not under):
+                return False
+        if is_ib(r):
+            continue                                   # returns the comparison itself
+        if T.is_const(r) and r[1] == 0:
+            continue                                   # returns false
+        if T.is_const(r) and r[1] == 1 and under:
+            continue                                   # returns true under the comparison
+        return False
+    return bool(lv)
+
+
 @rule("C12.R5", "root keeps a move only when strictly better")
 def r5(ctx):
     P = ctx.P
@@ -346,6 +393,10 @@ def r5(ctx):
                 calls = k2.guard_calls(g)
                 ib = [(c, v) for c, v in calls.items() if c.endswith("Policy>::is_better")]
                 ok = False
+                if not ib:
+                    # the comparison may sit in a private helper `h(&mut best, candidate) -> bool` that returns true only where
+                    # P::is_better(*best, candidate) holds (evaluated on the helper's own paths)
+                    ib = [(c, (v[0], tuple(_unref(a) for a in v[1]))) for c, v in calls.items() if v[0] is True and len(v[1]) == 2 and _is_better_helper(P, c)]
                 if len(ib) == 1 and ib[0][1][0] is True:
                     a0, a1 = ib[0][1][1][0], ib[0][1][1][1]
                     ok = a0[0] == a1[0] == "place" and a0[2] == a1[2] == () and a0[1] in score_locals and a1[1] in cand_locals
@@ -353,6 +404,61 @@ def r5(ctx):
                        site=site, sample={"guard": "P::is_better(score, new)"})
     ctx.floor("best-move updates", n, 3)
     ctx.ob("pass starts at WORST_SCORE", starts and all(x == "<P as chess_engine::Policy>::WORST_SCORE" for x in starts), f"root score is initialised from {starts}", site=site, sample=starts[:1])
+
+
+def _fold_sites(P, key):
+    """(score locals, candidate locals, update sites) of a function that folds alphabeta results into a running best score.
+    An update site is `best = candidate` guarded by P::is_better(best, candidate), or a call of a private helper doing exactly that."""
+    body = P.body(key)
+    name_of = lambda i: body["locals"][i].get("n")
+    score_locals = set()
+    for blk in body["blocks"]:
+        for s in blk["s"]:
+            if s["k"] == "assign" and name_of(s["p"]["l"]) and not s["p"]["pj"] and body["locals"][s["p"]["l"]]["ty"] == SCORE:
+                d = k2.describe_def(P, body, "stmt", s)
+                if d[0] == "uneval" and d[1] == "<P as chess_engine::Policy>::WORST_SCORE":
+                    score_locals.add(name_of(s["p"]["l"]))
+    ab = P.find_fn("Engine::alphabeta", "chess_engine")
+    cand_locals = set()
+    for i, l in enumerate(body["locals"]):
+        if l.get("n") and l["ty"] == SCORE and l["n"] not in score_locals and any(o[0] == "call" and T.strip_generics(o[1]) == ab for o in k2.origins(P, body, i)):
+            cand_locals.add(l["n"])
+    good, stray = [], []
+    for bi, blk in enumerate(body["blocks"]):
+        for s in blk["s"]:
+            if s["k"] == "assign" and name_of(s["p"]["l"]) in score_locals and not s["p"]["pj"]:
+                d = k2.describe_def(P, body, "stmt", s)
+                if d[0] == "uneval":
+                    continue
+                if d[0] == "place" and d[1] in score_locals and d[2] == ():
+                    continue                            # a finished pass's best becomes the overall best (provenance: C12.R7)
+                calls = k2.guard_calls(k2.guards_of(P, key, bi))
+                ib = [v for c, v in calls.items() if c.endswith("Policy>::is_better")]
+                ok = (d[0] == "place" and d[1] in cand_locals and d[2] == () and len(ib) == 1 and ib[0][0] is True
+                      and ib[0][1][0] == ("place", name_of(s["p"]["l"]), ()) and ib[0][1][1] == d)
+                (good if ok else stray).append((bi, T.short(str(d))[:80]))
+        t_ = blk["t"]
+        if t_["k"] == "call" and _is_better_helper(P, (t_["f"].get("fn") or ""), writes=True):
+            a = [_unref(k2.describe_operand(P, body, o)) for o in t_["a"]]
+            ok = a[0][0] == a[1][0] == "place" and a[0][1] in score_locals and a[1][1] in cand_locals and a[0][2] == a[1][2] == ()
+            (good if ok else stray).append((bi, "helper " + T.short(t_["f"].get("fn") or "")))
+    return score_locals, cand_locals, good, stray
+
+
+@rule("C12.R8", "the running best score is replaced by a child's score exactly where P::is_better(best, child) holds (root passes and alphabeta)")
+def r8(ctx):
+    """The mating move survives the rest of the pass only if the running best really becomes the mate score when it is found, and the children
+    return the best of *their* children: a fold that never stores the better score returns the policy's worst score from every inner node (which
+    the parent reads as the opponent's best), and lets every later root move replace the mating move."""
+    P = ctx.P
+    for nm, floor in (("Engine::search_with", 3), ("Engine::alphabeta", 1)):
+        key = P.find_fn(nm, "chess_engine")
+        ctx.used_body(key)
+        sl, cl, good, stray = _fold_sites(P, key)
+        site = P.body(key).get("def_span")
+        ctx.ob(f"{nm} fold locals", bool(sl) and bool(cl), f"{nm}: running best {sorted(sl)} (initialised from P::WORST_SCORE) / candidates {sorted(cl)} (results of alphabeta) not both found", site=site)
+        ctx.ob(f"{nm} stray writes", not stray, f"{nm}: the running best score is also written at {stray[:3]}; expected only `best = child` under P::is_better(best, child)", site=site, sample=len(good))
+        ctx.floor(f"{nm} fold updates", len(good), floor)
 
 
 @rule("C12.R7", "the score search_with reports comes from the search (alphabeta) or is the policy's worst score, never from somewhere else")
@@ -423,7 +529,18 @@ def _extra_mate(P):
                 return
 
 
+def _drop_fold_store(P):
+    key = P.find_fn("Engine::alphabeta", "chess_engine")
+    b = P.own("fns", key)
+    sl, cl, good, stray = _fold_sites(P, key)
+    name_of = lambda i: b["locals"][i].get("n")
+    for blk in b["blocks"]:
+        blk["s"] = [s for s in blk["s"] if not (s["k"] == "assign" and name_of(s["p"]["l"]) in sl and not s["p"]["pj"]
+                                                  and (lambda d: d[0] == "place" and d[1] in cl)(k2.describe_def(P, b, "stmt", s)))]
+
+
 CONTROLS = [
+    ("alphabeta never stores the better child score", "C12.R8", _drop_fold_store),
     ("mate colours swapped", "C12.R1", _swap_mate_colors),
     ("dead position: bishops <= 1 instead of == 0", "C12.R3", _insuff_loose),
     ("eval builds a mate score", "C12.R1", _extra_mate),
